@@ -4201,10 +4201,15 @@ bool llbuild::buildsystem::pathIsPrefixedByPath(std::string path,
   }
   auto res = std::mismatch(prefixPath.begin(), prefixPath.end(), path.begin());
   // Check if `prefixPath` has been exhausted or just a separator remains.
-  bool isPrefix = res.first == prefixPath.end() ||
+  bool prefixExhausted = res.first == prefixPath.end();
+  bool isPrefix = prefixExhausted ||
                   (pathSeparators.find(*(res.first++)) != std::string::npos);
-  // Check if `path` has been exhausted or just a separator remains.
+  // Check if `path` has been exhausted, continues with a separator, or
+  // `prefixPath` was exhausted and itself ends with a separator ("/foo/" is a
+  // prefix of "/foo/bar").
   return isPrefix &&
          (res.second == path.end() ||
-          (pathSeparators.find(*(res.second++)) != std::string::npos));
+          (pathSeparators.find(*(res.second++)) != std::string::npos) ||
+          (prefixExhausted && !prefixPath.empty() &&
+           pathSeparators.find(prefixPath.back()) != std::string::npos));
 }
